@@ -102,6 +102,10 @@ class Inst:
             p = p.replace('[', '').replace(']', '').replace('<', '').replace('>', '')
         if kind == 'cellspan':
             p = p.replace('|', '')
+        if kind in ('span', 'cellspan') and re.search(r'~~\}|\{~~|~>', p) and not self.allow_known:
+            # known finding: the LaTeX \texttt exporter prints the tildes of CriticMarkup substitution markers bare -- kept out of span payloads (counted)
+            EXCLUDED['critic_tilde_in_code_span'] = EXCLUDED.get('critic_tilde_in_code_span', 0) + 1
+            p = re.sub(r'~~\}|\{~~|~>', '', p)
         if kind in ('math',):
             p = re.sub(r'[$\\{}%&#_^~<>]', '', p) or 'x'      # math is the author's TeX: only characters without TeX meaning, so nesting stays the writer's business
         if kind == 'block' and '%' in p and not self.allow_known:
@@ -280,6 +284,14 @@ def un_tt(s):
     return out
 
 
+def tt_residue(s):
+    """What is left of a \\texttt body after every accepted escape spelling has been taken out."""
+    for a in ['\\textbackslash{}', '\\ensuremath{\\sim}', '\\textasciitilde{}', '\\^{}', '\\textasciicircum{}', '$<$', '$>$', '\\&', '\\%', '\\#', '\\_', '\\{', '\\}', '\\$',
+              '\\textbar{}', '\\slash{}']:
+        s = s.replace(a, ' ')
+    return s
+
+
 def latex_nesting(out):
     """begin/end stack discipline and brace balance outside verbatim environments."""
     stack = []
@@ -439,6 +451,9 @@ def check(case, ctx):
                 ok = mid == payload
             elif kind in ('span', 'cellspan'):
                 ok = un_tt(mid) == payload or un_tt(mid) == payload.replace('"', "''")       # the LaTeX writer spells " as '' also inside \\texttt
+                if ok and re.search(r'[~^&%#_$]', tt_residue(mid)):
+                    # a character that is active in LaTeX arrived bare inside \\texttt (it would not be typeset as itself)
+                    raise fail('verbatim:%s:span:bare-active' % fmt, '%s: span payload %r written as %r' % (fmt, payload, mid))
             elif kind == 'math':
                 ok = mid == payload or un_tt(mid) == payload         # e.g. / is spelled \\slash{}
             else:
